@@ -215,6 +215,23 @@ class Conc:
             self.main.add_fs("w", w, write=True, priority=5)
             self.inner = [w, lo]
             self.views = [self.main]
+        elif kind == "multi-cold":
+            # the tree lives in the LOWER-priority member and nothing has been looked up through the
+            # MultiFS yet: its priority-order cache is cold when the threads start
+            from fs.multifs import MultiFS
+
+            self.main = MultiFS()
+            w, lo = MemoryFS(), MemoryFS()
+            for e in tree:
+                if e[0] == "D":
+                    lo.makedirs(e[1], recreate=True)
+                else:
+                    lo.writebytes(e[1], e[2])
+            tree = []
+            self.main.add_fs("lo", lo, priority=1)
+            self.main.add_fs("w", w, write=True, priority=5)
+            self.inner = [w, lo]
+            self.views = [self.main]
         elif kind == "sub2":
             parent = MemoryFS()
             parent.makedir("x")
@@ -303,6 +320,7 @@ BACKEND_CLASSES = {
     "os": ["OSFS"],
     "mount": ["MountFS", "MemoryFS"],
     "multi": ["MultiFS", "MemoryFS"],
+    "multi-cold": ["MultiFS", "MemoryFS"],
     "sub2": ["SubFS", "MemoryFS"],
 }
 
@@ -340,6 +358,10 @@ def signature(kind, calls, status):
     r = responsible(kind, calls)
     if status == "deadlock":
         return "C08/%s/deadlock/%s" % (kind, "+".join(sorted(op[0] for op in calls)))
+    if all(op[0] in READERS for op in calls):
+        # calls that change nothing cannot disturb each other unless the object keeps hidden mutable
+        # state (a cache): never one of the recorded findings, whatever the backend
+        return "C08/%s/readers/%s" % (kind, "+".join(sorted(op[0] for op in calls)))
     if r is not None:
         if r[0] == "OSFS":
             # every OSFS primitive is a sequence of system calls without the filesystem lock
@@ -360,10 +382,31 @@ def signature(kind, calls, status):
         # a compound default that WrapFS does not override (today: writetext) runs under the lock of
         # the SubFS *view* it was called on; every view has its own lock and the other methods
         # delegate under the parent's lock, so nothing excludes it - not even a second call of itself
-        shapes = [(_SHAPES.get(("SubFS", op[0])) or ["?"])[0] for op in calls]
-        if "singleLocked" in shapes:
-            return "C08/known/SubFS-own-lock-does-not-cover-delegated-calls"
+        own = sorted({op[0] for op in calls if (_SHAPES.get(("SubFS", op[0])) or ["?"])[0] == "singleLocked"})
+        if own:
+            # the recorded finding names the methods (today: writetext); another method running under
+            # the view's private lock is a different violation
+            return "C08/known/SubFS-own-lock-does-not-cover-delegated-calls/" + "+".join(own)
     return None
+
+
+READERS = {"exists", "isdir", "isfile", "listdir", "getsize", "gettype", "isempty", "getinfo", "readbytes", "readtext",
+           "scandir", "filterdir", "walkfiles"}
+READER_CALLS = [("readbytes", "f"), ("exists", "f"), ("getinfo", "d/g"), ("listdir", "d"), ("isdir", "d/s"), ("readtext", "f"),
+                ("getsize", "d/g"), ("isempty", "e"), ("exists", "nope")]
+READER_KINDS = ["mem", "multi-cold", "multi", "mount", "sub2", "os"]
+
+
+def readers_phase(rep, thorough, rng):
+    """pairs of calls that change nothing, on every backend incl. a MultiFS whose caches are cold: each
+    must return what it returns alone under every explored interleaving"""
+    pairs = [(a, b) for i, a in enumerate(READER_CALLS) for b in READER_CALLS[i:]]
+    for kind in READER_KINDS:
+        chosen = pairs if thorough else ([(READER_CALLS[0], READER_CALLS[0]), (READER_CALLS[0], READER_CALLS[1])]
+                                         + rng.sample(pairs, 4 if kind in ("multi-cold", "multi") else 2))
+        for calls in chosen:
+            explore(rep, kind, "readers", TREE0, calls, bound=2 if thorough else 1, level=1 if thorough else 0,
+                    budget=120 if thorough else 40, rng=rng, label="/readers")
 
 
 # ----------------------------------------------------------------------------- call sets
@@ -446,6 +489,12 @@ DIRECTED = [
     ("same", [("D", "p"), ("F", "p/f", b"1")], (("movedir", "p", "q", True), ("writebytes", "p/n", b"2"))),
     ("same", [("D", "p"), ("F", "p/f", b"1")], (("removetree", "p"), ("appendbytes", "p/f", b"2"))),
     ("same", [("D", "p"), ("F", "p/f", b"1")], (("copydir", "p", "q", True), ("remove", "p/f"))),
+    # compound defaults of fs/base.py whose check-then-act must be covered by the lock that the OTHER call
+    # takes too (on two SubFS views: the parent's, never the view's own)
+    ("same", [], (("create", "n", False), ("writebytes", "n", b"data"))),
+    ("same", [], (("touch", "n"), ("writebytes", "n", b"data"))),
+    ("same", [("F", "a", b"A")], (("copy", "a", "c", False), ("create", "c", False))),
+    ("same", [], (("appendbytes", "n", b"1"), ("appendbytes", "n", b"2"))),
 ]
 
 
@@ -960,6 +1009,8 @@ def run(rep, tier, seed, deep=False):
                 explore(rep, kind, rel, t, c, bound=2 if thorough else 1, level=1 if thorough else 0,
                         budget=(700 if kind == "mem" else 300) if thorough else (120 if kind == "mem" else 40), rng=rng,
                         label="/directed")
+
+        readers_phase(rep, thorough, rng)
 
         # ---- (i) model <-> code on the whole pair matrix (MemoryFS)
         n_i = len(sets) if thorough else 420
